@@ -151,7 +151,9 @@ class Driver(object):
             return []
         data = "".join(json.dumps(r, ensure_ascii=True) + "\n" for r in reqs)
         p = subprocess.run([DRIVER], input=data, capture_output=True, text=True, timeout=timeout)
-        lines = p.stdout.splitlines()
+        lines = p.stdout.split("\n")          # never str.splitlines(): it also breaks at \x85, \x0c, \u2028 ...
+        if lines and lines[-1] == "":
+            lines.pop()
         if p.returncode != 0 or len(lines) != len(reqs):
             raise Infra("driver failed rc=%s got %d/%d lines: %s" % (p.returncode, len(lines), len(reqs), p.stderr[-500:]))
         return [json.loads(l) for l in lines]
@@ -276,11 +278,16 @@ class Prop(object):
         dist[case["op"]] = dist.get(case["op"], 0) + 1
 
 
-def shrink(prop, case, fails):
-    """greedy minimisation: keep replacing the case by a smaller candidate that still fails"""
+def shrink(prop, case, fails, budget_s=20.0):
+    """greedy minimisation: keep replacing the case by a smaller candidate that still fails (time-boxed)"""
     cur = case
+    deadline = time.time() + budget_s
     for _ in range(200):
+        if time.time() > deadline:
+            break
         for cand in prop.shrink_candidates(cur):
+            if time.time() > deadline:
+                break
             try:
                 if fails(cand):
                     cur = cand
@@ -414,6 +421,8 @@ def _check(prop, tier, seed, t0):
     evaluations = 0
     samples = []
 
+    unknown_count = [0]
+
     def consume(cases, label):
         nonlocal evaluations
         cases = list(cases)
@@ -427,18 +436,25 @@ def _check(prop, tier, seed, t0):
                 if len(samples) < 5 and prop.nontrivial(c, r):
                     samples.append({"case": c, "real": r})
                 if orc is not None:
-                    failures.append({"case": c, "observed": orc.get("observed"), "required": orc.get("required"),
-                                     "kind": orc.get("kind", "oracle"), "real": r, "model": mo})
+                    f = {"case": c, "observed": orc.get("observed"), "required": orc.get("required"),
+                         "kind": orc.get("kind", "oracle"), "real": r, "model": mo}
+                    if known_match(pid, f, known) is None:
+                        unknown_count[0] += 1
+                    failures.append(f)
                 if corr is not None:
                     disagreements.append({"case": c, "real": corr["real"], "model": corr["model"]})
-            if len(failures) > 50 or len(disagreements) > 50:
+            if unknown_count[0] > 50 or len(disagreements) > 50:      # listed known findings never cut the exploration short
                 break
 
     consume(prop.corpus(), "corpus")
     consume(prop.cases(rng, tier, budget), "generated")
     extra = prop.extra_checks({"tier": tier, "seed": seed, "rng": rng, "driver": driver, "dist": dist})
     for f in extra:
-        failures.append(f)
+        if str(f.get("kind", "")).endswith("disagreement"):
+            # model and code differ on something, but the property was not seen to fail on the real code
+            disagreements.append({"case": f.get("case"), "real": f.get("required"), "model": f.get("observed"), "kind": f.get("kind")})
+        else:
+            failures.append(f)
     # ---- 5: decide
     if (broken or disagreements) and not failures:
         # failing-input search: the same generators with a 20x budget and a different stream
@@ -462,7 +478,7 @@ def _check(prop, tier, seed, t0):
             continue
         reported.add(sig)
         case = f.get("case")
-        if case is not None and prop.shrink_candidates(case):
+        if case is not None and len(reported) <= 2 and prop.shrink_candidates(case):
             def still_fails(c):
                 r = prop.real(c)
                 o = prop.oracle(c, r)
